@@ -197,6 +197,8 @@ def corr_looprun(ck: core.Check, drv) -> None:
                                 continue  # a doubling body contradicts a constant declared shape
                             cases.append({"body": kind, "M": M, "c0": c0, "conds": conds, "declared": declared,
                                           "v0": [{"e": "f32", "s": shape}]})
+                            if c0:  # the same run with `cond` OMITTED: the model's c0 = true is what the runtime does
+                                cases.append(dict(cases[-1], omit=True))
     model = drv.ask_many("C06", [dict(c, k="looprun") for c in cases])
     mism = ran = zero = 0
     sessions: dict = {}
@@ -204,7 +206,7 @@ def corr_looprun(ck: core.Check, drv) -> None:
     for c, mo in zip(cases, model):
         shape = c["v0"][0]["s"]
         decl = list(shape) if c["declared"] == "const" else [None] * len(shape)
-        key = (c["body"], tuple(c["conds"]), json.dumps(decl))
+        key = (c["body"], tuple(c["conds"]), json.dumps(decl), bool(c.get("omit")))
         if key not in sessions:
             args = P.make_args({"x": L.ty_from_json({"e": "f32", "s": decl}),
                                 "m": L.ty_from_json({"e": "i64", "s": []}), "c": L.ty_from_json({"e": "bool", "s": [1]})})
@@ -219,7 +221,7 @@ def corr_looprun(ck: core.Check, drv) -> None:
 
             with warnings.catch_warnings():
                 warnings.simplefilter("ignore")
-                outs = op.loop(args["m"], args["c"], v_initial=[args["x"]], body=body)
+                outs = op.loop(args["m"], None if c.get("omit") else args["c"], v_initial=[args["x"]], body=body)
             m, _ = P.build_exposed(args, list(outs))
             sessions[key] = P._session(m.SerializeToString())
         feed = {"x": np.zeros(shape, np.float32), "m": np.array(c["M"], np.int64), "c": np.array([c["c0"]], np.bool_)}
@@ -246,7 +248,8 @@ def corr_looprun(ck: core.Check, drv) -> None:
         if v.get("ok") is not True:
             mism += 1
             ck.broken("correspondence", "emptyScanOk runtime-spec-vs-onnxruntime", f"case={json.dumps(c)} scan output={w} declared slice type={t} model={v}")
-    ck.cov["looprun_correspondence"] = {"cases": len(cases), "onnxruntime_accepted": ran, "zero_iteration_cases": zero, "mismatches": mism}
+    ck.cov["looprun_correspondence"] = {"cases": len(cases), "cond_omitted_cases": sum(1 for c in cases if c.get("omit")),
+                                        "onnxruntime_accepted": ran, "zero_iteration_cases": zero, "mismatches": mism}
 
 
 def corr_nontensor(ck: core.Check, drv) -> None:
